@@ -22,6 +22,14 @@ pub struct Case {
     /// rule sets installed after the first request (the connection stays open): (wireserver, imds, hostga)
     #[serde(default)]
     pub later_rules: Option<(Option<GDoc>, Option<GDoc>, Option<GDoc>)>,
+    /// a record of a NON-elevated caller whose elevation field holds this value instead of 0 (a kernel helper
+    /// reporting "status unknown" returns a negative number): still not elevated
+    #[serde(default)]
+    pub admin_raw: Option<i32>,
+    /// the caller is the process that can replace its image: it is seen once with its current image (a request on
+    /// another connection), then execs the other program under the same pid, then the case runs
+    #[serde(default)]
+    pub morph: bool,
 }
 
 pub fn dest_sel() -> impl Strategy<Value = DestSel> {
@@ -58,9 +66,17 @@ pub fn strategy() -> impl Strategy<Value = Case> {
         prop::option::weighted(0.85, rec()),
         gen::greq_with(provision_or(gen::gurl())),
         prop_oneof![3 => Just(vec![]), 2 => prop::collection::vec(gen::greq_with(provision_or(gen::gurl())), 1..4)],
-        prop::option::weighted(0.25, (prop::option::weighted(0.8, gen::gdoc()), prop::option::weighted(0.8, gen::gdoc()), prop::option::weighted(0.6, gen::gdoc()))),
+        (prop::option::weighted(0.25, (prop::option::weighted(0.8, gen::gdoc()), prop::option::weighted(0.8, gen::gdoc()), prop::option::weighted(0.6, gen::gdoc()))), prop::option::weighted(0.12, prop::sample::select(vec![-1i32, -22, i32::MIN])), prop::bool::weighted(0.12)),
     )
-        .prop_map(|(ws, imds, hostga, rec, req, more, later_rules)| Case { ws, imds, hostga, rec, req, more, later_rules })
+        .prop_map(|(ws, imds, hostga, mut rec, req, more, (later_rules, admin_raw, morph))| {
+            if morph {
+                if let Some(r) = rec.as_mut() {
+                    r.helper_sel = crate::rig::CHAMELEON;
+                }
+            }
+            let morph = morph && rec.is_some();
+            Case { ws, imds, hostga, rec, req, more, later_rules, admin_raw, morph }
+        })
 }
 
 /// C03 end-to-end: non-elevated callers to the root-only endpoints, and the self destination
@@ -91,7 +107,7 @@ pub fn strategy_c03() -> impl Strategy<Value = Case> {
     })
 }
 
-pub const RULE: &str = "generator: rule set (or none) per endpoint installed through the public set_*_rules x attribution record (85%: uid from the generated passwd, pid of a live helper process, elevation flag = (uid == 0) or independent, original destination in {WireServer, HostGAPlugin, IMDS, the proxy itself, another local address, 168.63.129.16:81, an address nobody listens on}) or no record (direct connection) x request (method, URL incl. '..' / %2e%2e / '/provision', URL and caller mostly bound to the destination's rule set, header set, body as Content-Length or chunked). The raw client binds its source port, the record is placed in the stand-in audit map for that port, then it connects to the real listener. oracle: bytes counted at the mock hosts and the client status against the reference (record present AND no literal '..' in the path AND reference authorizer != Block). non-trivial: record present, destination's rule set present and not disabled, and the reference decision depends on the rule set (flipping the default access or the caller's elevation changes it) - or one of the refusal classes with a record present (traversal, self, non-elevated to a root-only endpoint, enforced denial). 40% of the cases carry 1-3 further requests on the same keep-alive connection and 25% of those replace the rule sets after the first request; every request is judged on its own against the rules in force when it is sent. distinct by hash of the case.";
+pub const RULE: &str = "generator: rule set (or none) per endpoint installed through the public set_*_rules x attribution record (12% of the non-elevated records carry a negative elevation field, 'status unknown'; in 12% of the cases the caller is a process that has been seen by the agent before and has since replaced its image with exec - same pid, another executable and command line; 85%: uid from the generated passwd, pid of a live helper process, elevation flag = (uid == 0) or independent, original destination in {WireServer, HostGAPlugin, IMDS, the proxy itself, another local address, 168.63.129.16:81, an address nobody listens on}) or no record (direct connection) x request (method, URL incl. '..' / %2e%2e / '/provision', URL and caller mostly bound to the destination's rule set, header set, body as Content-Length or chunked). The raw client binds its source port, the record is placed in the stand-in audit map for that port, then it connects to the real listener. oracle: bytes counted at the mock hosts and the client status against the reference (record present AND no literal '..' in the path AND reference authorizer != Block). non-trivial: record present, destination's rule set present and not disabled, and the reference decision depends on the rule set (flipping the default access or the caller's elevation changes it) - or one of the refusal classes with a record present (traversal, self, non-elevated to a root-only endpoint, enforced denial). 40% of the cases carry 1-3 further requests on the same keep-alive connection and 25% of those replace the rule sets after the first request; every request is judged on its own against the rules in force when it is sent. distinct by hash of the case.";
 
 pub fn dest_of(d: DestSel) -> Dest {
     let (ip, port) = d.addr();
@@ -135,7 +151,22 @@ pub fn eval(rig: &Rig, case: &Case, stats: &mut Stats) -> Outcome {
     rig.set_rules(case.ws.as_ref(), case.imds.as_ref(), case.hostga.as_ref());
     rig.set_key(None);
     let mut rules: (Option<GDoc>, Option<GDoc>, Option<GDoc>) = (case.ws.clone(), case.imds.clone(), case.hostga.clone());
-    let entry = case.rec.as_ref().map(|r| rig.entry_of(r));
+    if let (true, Some(r)) = (case.morph, case.rec.as_ref()) {
+        if rig.helpers.procs.len() > crate::rig::CHAMELEON as usize {
+            // let the agent see the process with its present image first, then change the image under the same pid
+            let wire = crate::rawhttp::request_head("GET", "/seen-before", &[("Host".into(), b"h".to_vec())]);
+            let _ = exchange(rig, Some(r), &wire, "GET");
+            if let Err(e) = rig.helpers.morph(crate::rig::CHAMELEON as usize) {
+                return Outcome::fail("rig:caller-did-not-change-its-image", e);
+            }
+            stats.class("caller:replaced-its-image-with-exec-since-it-was-last-seen");
+        }
+    }
+    let mut entry = case.rec.as_ref().map(|r| rig.entry_of(r));
+    if let (Some(e), Some(v), Some(false)) = (entry.as_mut(), case.admin_raw, case.rec.as_ref().map(|r| r.is_root)) {
+        e.is_admin = v;
+        stats.class("record:elevation-field-negative(status-unknown)");
+    }
     let mut conn = match rig.open(entry, 0) {
         Ok(c) => Some(c),
         Err(e) => return Outcome::fail("rig:cannot-open-connection", e),
